@@ -10,7 +10,7 @@
    every order [ord] in which the leaves draw their number from the atomic
    counter (any injection of the leaves into [0, part_count)). *)
 From Coq Require Import Permutation QArith Floats.SpecFloat.
-From Coupe Require Import Lib.Prelude Lib.SFloat Model.MultiJagged Proofs.MultiJaggedProofs Proofs.MultiJaggedExact Proofs.MultiJaggedSim Proofs.MultiJaggedTotal Proofs.MultiJaggedSep Proofs.MultiJaggedMono Proofs.MultiJaggedF64Mono Proofs.MultiJaggedF64Ulps Gen.MjGen Gen.MjSortGen Gen.MjRecGen.
+From Coupe Require Import Lib.Prelude Lib.SFloat Model.MultiJagged Proofs.MultiJaggedProofs Proofs.MultiJaggedExact Proofs.MultiJaggedSim Proofs.MultiJaggedTotal Proofs.MultiJaggedSep Proofs.MultiJaggedMono Proofs.MultiJaggedF64Mono Proofs.MultiJaggedF64Ulps Proofs.MultiJaggedF64Scaled Gen.MjGen Gen.MjSortGen Gen.MjRecGen.
 Open Scope N_scope.
 
 (* the literals of multi_jagged.rs the model is written against, re-read from the source on every run *)
@@ -293,6 +293,23 @@ Theorem C11_f64_total : forall D (zs : list Z) sorter blk cxlt root ord (k : N) 
   exists p, multi_jagged F64 D (length zs) (map (fun z => f64_of_Z z) zs) sorter blk root ord k m p0 = Ok p.
 Proof. exact mj_f64_total_integer. Qed.
 Print Assumptions C11_f64_total.
+
+(* the same for weights z_i * 2^e with a common exponent (injS e z is the value
+   `binary_normalize 53 1024 z e false` the runs feed to the model: e = 0, 3,
+   +-10, -30, -70, and -1074 for the subnormal family) *)
+Theorem C11_f64_mono_cuts_scaled_weights : forall e, (-1074 <= e <= 970)%Z -> forall (zs : list Z) blk,
+  Forall (fun z => (0 <= z)%Z) zs -> (sumZ zs < 2 ^ 53)%Z ->
+  mono_cuts F64 (length zs) (map (injS e) zs) blk.
+Proof. exact f64_mono_cuts_scaled. Qed.
+Print Assumptions C11_f64_mono_cuts_scaled_weights.
+
+Theorem C11_f64_total_scaled : forall e D (zs : list Z) sorter blk cxlt root ord (k : N) (m : nat) p0,
+  (-1074 <= e <= 970)%Z ->
+  root_ok root -> sorter_ok sorter cxlt -> 1 <= k -> k < 2 ^ 60 -> (1 <= m)%nat -> (1 <= D)%nat ->
+  Forall (fun z => (0 <= z)%Z) zs -> (sumZ zs < 2 ^ 53)%Z -> length p0 = length zs ->
+  exists p, multi_jagged F64 D (length zs) (map (injS e) zs) sorter blk root ord k m p0 = Ok p.
+Proof. exact mj_f64_total_scaled. Qed.
+Print Assumptions C11_f64_total_scaled.
 
 (* ---- whole-algorithm schedule independence at exact arithmetic (for C06) ---- *)
 
